@@ -392,6 +392,96 @@ pub fn macro_call(def: &MacroDef, input: &[Tok], long: bool) -> Result<Call, Cal
     Ok(Call { args: pstack, expansion, consumed: pos, facts })
 }
 
+// ------------------------------------------------------------------------------------------------
+// Second, declarative formulation (The TeXbook, chapter 20, pp. 203-204), independent of the
+// control flow of §391-§400. The checks require both formulations to agree on every case they run.
+
+/// Index of the right brace matching the left brace at `open` (None if the list ends first).
+pub fn matching_brace(ts: &[Tok], open: usize) -> Option<usize> {
+    let mut depth = 0i64;
+    for (i, t) in ts.iter().enumerate().skip(open) {
+        if t.is_left_brace() {
+            depth += 1;
+        } else if t.is_right_brace() {
+            depth -= 1;
+            if depth == 0 {
+                return Some(i);
+            }
+        }
+    }
+    None
+}
+
+/// "the shortest (possibly empty) sequence of tokens with properly nested {...} groups that is
+/// followed in the input by this particular list of nonparameter tokens": position of the first
+/// occurrence of `delim` at brace depth 0 at or after `from`. The last token of `delim` may be a left
+/// brace (the `#{` form); no other token of a delimiter can be a brace.
+fn first_occurrence_at_depth_0(input: &[Tok], from: usize, delim: &[Tok]) -> Option<usize> {
+    let mut depth = 0i64;
+    let mut i = from;
+    while i < input.len() {
+        if depth == 0 && input[i..].starts_with(delim) {
+            return Some(i);
+        }
+        if input[i].is_left_brace() {
+            depth += 1;
+        } else if input[i].is_right_brace() {
+            if depth == 0 {
+                return None; // an unmatched right brace cannot be part of an argument
+            }
+            depth -= 1;
+        }
+        i += 1;
+    }
+    None
+}
+
+/// Declarative macro call. `prefix` are the tokens before the first parameter, `params[i]` is `None`
+/// for an undelimited parameter and the delimiter otherwise; with the `#{` form the left brace is the
+/// last token of the last delimiter (or of the prefix when there is no parameter).
+/// Returns the arguments and the number of tokens consumed, or None when the call does not match
+/// (for whatever reason: mismatch, extra right brace, end of the list).
+pub fn spec_call(prefix: &[Tok], params: &[Option<Vec<Tok>>], input: &[Tok]) -> Option<(Vec<Vec<Tok>>, usize)> {
+    if !input.starts_with(prefix) {
+        return None;
+    }
+    let mut pos = prefix.len();
+    let mut args = vec![];
+    for p in params {
+        match p {
+            None => {
+                // "the next nonblank token, unless that token is {, when the argument is the entire group"
+                while input.get(pos).map(|t| t.is_space_token()).unwrap_or(false) {
+                    pos += 1;
+                }
+                let t = *input.get(pos)?;
+                if t.is_right_brace() {
+                    return None;
+                }
+                if t.is_left_brace() {
+                    let close = matching_brace(input, pos)?;
+                    args.push(input[pos + 1..close].to_vec());
+                    pos = close + 1;
+                } else {
+                    args.push(vec![t]);
+                    pos += 1;
+                }
+            }
+            Some(d) => {
+                let at = first_occurrence_at_depth_0(input, pos, d)?;
+                let mut arg = &input[pos..at];
+                // "if the argument has the form {nested tokens}, the outermost braces are removed"
+                if arg.len() >= 2 && arg[0].is_left_brace() && matching_brace(arg, 0) == Some(arg.len() - 1) {
+                    arg = &arg[1..arg.len() - 1];
+                }
+                args.push(arg.to_vec());
+                pos = at + d.len();
+            }
+        }
+    }
+    Some((args, pos))
+}
+
 #[cfg(test)]
 mod tests {
     use super::*;
